@@ -161,7 +161,8 @@ class Sensor(ABC):
             estimate_eci,
             self.host.datetime_epoch,
         )
-        if self.canSlew(pointing_sez):
+        slewed = self.canSlew(pointing_sez)
+        if slewed:
             # If the sensor can slew to the target, then it does before attempting observations
             self.boresight = pointing_sez[:3] / norm(pointing_sez[:3])
             self.time_last_tasked = self.host.time
@@ -186,7 +187,7 @@ class Sensor(ABC):
             )
 
         # If doing Serendipitous Observations
-        if self.calculate_background:
+        if self.calculate_background and slewed:
             visible_observations = [
                 observation
                 for tgt in background_agents
